@@ -17,7 +17,7 @@ Section WithTables.
     exists s, wrote_srcs (run v) = [s] /\ forall s', In s' (head_srcs (run v)) -> s' = s.
   Proof. unfold run. rewrite T. apply exactly_once_good. Qed.
 
-  Lemma nothing_without_request v : active v = false -> count is_wrote (run v) = 0.
+  Lemma nothing_without_request v : idle v = true -> count is_wrote (run v) = 0.
   Proof. unfold run. rewrite T. apply nothing_without_request_good. Qed.
 End WithTables.
 
